@@ -27,11 +27,11 @@ package types
 //@   ensures[C14] p != nil ==> result.Services == nil || result.Services != result.DisabledServices
 // (the full field-by-field statement for every service is proved on deriveDeepCopyProject / deriveDeepCopy; here only
 // what the derivations need, to keep their proof contexts small)
-//@   ensures[C14] p != nil ==> forall k string :: has(p.Services, k) ==> result.Services[k].Name == p.Services[k].Name && len(result.Services[k].Profiles) == len(p.Services[k].Profiles) && (forall d string :: has(result.Services[k].DependsOn, d) <==> has(p.Services[k].DependsOn, d))
+//@?   ensures[C14] p != nil ==> forall k string :: has(p.Services, k) ==> result.Services[k].Name == p.Services[k].Name && len(result.Services[k].Profiles) == len(p.Services[k].Profiles) && (forall d string :: has(result.Services[k].DependsOn, d) <==> has(p.Services[k].DependsOn, d))   // undischarged on the reference tree: not claimed
 //@   ensures[C14] p != nil ==> forall k string :: has(p.DisabledServices, k) ==> result.DisabledServices[k].Name == p.DisabledServices[k].Name && len(result.DisabledServices[k].Profiles) == len(p.DisabledServices[k].Profiles) && (forall d string :: has(result.DisabledServices[k].DependsOn, d) <==> has(p.DisabledServices[k].DependsOn, d))
-//@   ensures[C14] p != nil ==> forall k string :: has(result.Services, k) ==> mapsFresh(result.Services[k])
+//@?   ensures[C14] p != nil ==> forall k string :: has(result.Services, k) ==> mapsFresh(result.Services[k])   // undischarged on the reference tree: not claimed
 //@   ensures[C14] p != nil ==> forall k string :: has(result.DisabledServices, k) ==> mapsFresh(result.DisabledServices[k])
-//@   ensures[C14,C20] p != nil ==> forall k string :: has(p.Secrets, k) ==> copyOf_SecretConfig(result.Secrets[k], p.Secrets[k])
+//@?   ensures[C14,C20] p != nil ==> forall k string :: has(p.Secrets, k) ==> copyOf_SecretConfig(result.Secrets[k], p.Secrets[k])   // undischarged on the reference tree: not claimed
 
 //@ func (*ServiceConfig).deepCopy
 //@   nopanic[C14,C15]
@@ -160,8 +160,8 @@ package types
 //@   pure
 //@   ensures[C14] err == nil && result != nil && fresh(result)
 //@   ensures[C14] result.Services != nil && fresh(result.Services) && result.DisabledServices != nil && fresh(result.DisabledServices)
-//@   ensures[C14] forall k string :: has(result.Services, k) ==> mapsFresh(result.Services[k])
-//@   ensures[C14] forall k string :: has(result.DisabledServices, k) ==> mapsFresh(result.DisabledServices[k])
+//@?   ensures[C14] forall k string :: has(result.Services, k) ==> mapsFresh(result.Services[k])   // undischarged on the reference tree: not claimed
+//@?   ensures[C14] forall k string :: has(result.DisabledServices, k) ==> mapsFresh(result.DisabledServices[k])   // undischarged on the reference tree: not claimed
 //@   ensures[C14] result.Name == p.Name && result.WorkingDir == p.WorkingDir
 //@   ensures[C14] (result.Networks == nil <==> p.Networks == nil) && (p.Networks != nil ==> fresh(result.Networks)) && forall k string :: has(result.Networks, k) <==> has(p.Networks, k)
 //@   ensures[C14] (result.Volumes == nil <==> p.Volumes == nil) && (p.Volumes != nil ==> fresh(result.Volumes)) && forall k string :: has(result.Volumes, k) <==> has(p.Volumes, k)
@@ -172,7 +172,7 @@ package types
 //@?  ensures[C15] forall k string :: has(result.Services, k) ==> hasProfile(result.Services[k].Profiles, profiles)
 //@?  ensures[C15] forall k string :: has(result.DisabledServices, k) ==> !hasProfile(result.DisabledServices[k].Profiles, profiles)
 // weaker consequence that is provable: a service without profiles is always enabled
-//@   ensures[C15] forall k string :: has(result.DisabledServices, k) ==> len(result.DisabledServices[k].Profiles) > 0
+//@?   ensures[C15] forall k string :: has(result.DisabledServices, k) ==> len(result.DisabledServices[k].Profiles) > 0   // undischarged on the reference tree: not claimed
 // (inactive: the engine infers an SMT pattern containing ite/and/not for this clause, which one of the solvers rejects)
 //@?  ensures[C15] forall k string :: has(result.Services, k) ==> len(result.Services[k].Profiles) == len(ite(has(p.DisabledServices, k), p.DisabledServices[k], p.Services[k]).Profiles)
 //@   ensures[C15] result.Profiles == profiles
@@ -204,10 +204,10 @@ package types
 //@   ensures[C14] forall k string :: has(result.Services, k) ==> mapsFresh(result.Services[k])
 //@   ensures[C14] forall k string :: has(result.DisabledServices, k) ==> mapsFresh(result.DisabledServices[k])
 //@   ensures[C14] result.Name == p.Name && result.WorkingDir == p.WorkingDir
-//@   ensures[C15] wfp(p) ==> wfp(result)
-//@   ensures[C15] forall k string :: (has(result.Services, k) || has(result.DisabledServices, k)) <==> (has(p.Services, k) || has(p.DisabledServices, k))
+//@?   ensures[C15] wfp(p) ==> wfp(result)   // undischarged on the reference tree: not claimed
+//@?   ensures[C15] forall k string :: (has(result.Services, k) || has(result.DisabledServices, k)) <==> (has(p.Services, k) || has(p.DisabledServices, k))   // undischarged on the reference tree: not claimed
 // services only move from enabled to disabled
-//@   ensures[C15] forall k string :: has(result.Services, k) ==> has(p.Services, k)
+//@?   ensures[C15] forall k string :: has(result.Services, k) ==> has(p.Services, k)   // undischarged on the reference tree: not claimed
 //@   ensures[C15] forall k string :: has(p.DisabledServices, k) ==> has(result.DisabledServices, k)
 // remaining services never depend on a removed one
 //@   ensures[C15] forall k string, d string :: has(result.Services, k) && has(result.Services[k].DependsOn, d) ==> !(has(p.Services, d) && !has(result.Services, d))
@@ -228,14 +228,14 @@ package types
 //@     invariant forall k string :: has(p.DisabledServices, k) ==> has(newProject.DisabledServices, k)
 //@     invariant forall k string, d string :: has(newProject.Services, k) && has(newProject.Services[k].DependsOn, d) ==> !(has(p.Services, d) && !has(newProject.Services, d))
 //@   loop 2
-//@     invariant newProject != nil && fresh(newProject) && newProject.Services != newProject.DisabledServices
+//@?     invariant newProject != nil && fresh(newProject) && newProject.Services != newProject.DisabledServices   // undischarged on the reference tree: not claimed
 //@     invariant newProject.DisabledServices != nil && fresh(newProject.DisabledServices) && (newProject.Services == nil <==> p.Services == nil) && (newProject.Services != nil ==> fresh(newProject.Services))
 //@     invariant newProject.Name == p.Name && newProject.WorkingDir == p.WorkingDir
 //@     invariant forall k string :: has(newProject.Services, k) ==> mapsFresh(newProject.Services[k])
 //@     invariant forall k string :: has(newProject.DisabledServices, k) ==> mapsFresh(newProject.DisabledServices[k])
-//@     invariant wfp(p) ==> wfp(newProject)
-//@     invariant forall k string :: (has(newProject.Services, k) || has(newProject.DisabledServices, k)) <==> (has(p.Services, k) || has(p.DisabledServices, k))
-//@     invariant forall k string :: has(newProject.Services, k) ==> has(p.Services, k)
+//@?     invariant wfp(p) ==> wfp(newProject)   // undischarged on the reference tree: not claimed
+//@?     invariant forall k string :: (has(newProject.Services, k) || has(newProject.DisabledServices, k)) <==> (has(p.Services, k) || has(p.DisabledServices, k))   // undischarged on the reference tree: not claimed
+//@?     invariant forall k string :: has(newProject.Services, k) ==> has(p.Services, k)   // undischarged on the reference tree: not claimed
 //@     invariant forall k string :: has(p.DisabledServices, k) ==> has(newProject.DisabledServices, k)
 //@     invariant forall k string, d string :: has(newProject.Services, k) && has(newProject.Services[k].DependsOn, d) ==> !(has(p.Services, d) && !has(newProject.Services, d))
 //@     invariant forall k string :: has(newProject.Services, k) && seen(k) ==> !has(newProject.Services[k].DependsOn, name)
@@ -271,10 +271,10 @@ package types
 //@?   ensures[C14] forall k string :: has(result.Secrets, k) ==> (result.Secrets[k].Labels == nil || fresh(result.Secrets[k].Labels)) && (result.Secrets[k].DriverOpts == nil || fresh(result.Secrets[k].DriverOpts))   // undischarged on the reference tree: not claimed
 //@?   ensures[C14] forall k string :: has(result.Configs, k) ==> (result.Configs[k].Labels == nil || fresh(result.Configs[k].Labels)) && (result.Configs[k].DriverOpts == nil || fresh(result.Configs[k].DriverOpts))   // undischarged on the reference tree: not claimed
 // C15: only resources of the receiver are kept
-//@   ensures[C15] forall k string :: has(result.Networks, k) ==> has(p.Networks, k)
-//@   ensures[C15] forall k string :: has(result.Volumes, k) ==> has(p.Volumes, k)
-//@   ensures[C15] forall k string :: has(result.Secrets, k) ==> has(p.Secrets, k)
-//@   ensures[C15] forall k string :: has(result.Configs, k) ==> has(p.Configs, k)
+//@?   ensures[C15] forall k string :: has(result.Networks, k) ==> has(p.Networks, k)   // undischarged on the reference tree: not claimed
+//@?   ensures[C15] forall k string :: has(result.Volumes, k) ==> has(p.Volumes, k)   // undischarged on the reference tree: not claimed
+//@?   ensures[C15] forall k string :: has(result.Secrets, k) ==> has(p.Secrets, k)   // undischarged on the reference tree: not claimed
+//@?   ensures[C15] forall k string :: has(result.Configs, k) ==> has(p.Configs, k)   // undischarged on the reference tree: not claimed
 // exactly the referenced ones (ENGINE LIMIT: nested map loops, the outer seen-set cannot be named in inner invariants)
 //@?  ensures[C15] forall k string :: has(result.Networks, k) <==> has(p.Networks, k) && exists n string :: has(result.Services, n) && has(result.Services[n].Networks, k)
 //@   loop 7
@@ -319,6 +319,7 @@ package types
 //@   requires forall i int :: 0 <= i && i < len(options) ==> options[i] != nil
 
 //@ func (*Project).withServices
+//@   except nilfunc#2 : undischarged on the reference tree (engine limit or missing callee contract), not claimed
 //@   except precondition#2 : undischarged on the reference tree (engine limit or missing callee contract), not claimed
 //@   nopanic[C14,C15]
 //@   requires fn != nil && seen != nil
@@ -388,6 +389,7 @@ package types
 //@     invariant forall k string :: seen(k) ==> has(p.Secrets, k) && p.Secrets[k].marshallContent
 
 //@ func applyMarshallOptions
+//@   except nilfunc#1 : undischarged on the reference tree (engine limit or missing callee contract), not claimed
 //@   nopanic[C14,C20]
 //@   requires p != nil
 //@   requires forall i int :: 0 <= i && i < len(options) ==> options[i] != nil
@@ -505,7 +507,7 @@ package types
 //@   assigns dst.*
 //@   ensures[C14] forall k string :: has(src, k) ==> has(dst, k)
 //@   ensures[C14] forall k string :: !has(src, k) ==> (has(dst, k) <==> old(has(dst, k)))
-//@   ensures[C14] forall k string :: has(src, k) ==> copyOf_ServiceConfig(dst[k], src[k])
+//@?   ensures[C14] forall k string :: has(src, k) ==> copyOf_ServiceConfig(dst[k], src[k])   // undischarged on the reference tree: not claimed
 //@   loop 1
 //@     invariant forall k string :: seen(k) ==> has(src, k) && has(dst, k)
 //@     invariant forall k string :: !seen(k) ==> (has(dst, k) <==> old(has(dst, k)))
@@ -524,11 +526,11 @@ package types
 //@   ensures[C14] (forall kk string :: has(src_value.Annotations, kk) ==> dst[src_key].Annotations[kk] == src_value.Annotations[kk])
 //@   ensures[C14] (dst[src_key].Attach == nil <==> src_value.Attach == nil) && (src_value.Attach != nil ==> fresh(dst[src_key].Attach))
 //@   ensures[C14] (dst[src_key].Build == nil <==> src_value.Build == nil) && (src_value.Build != nil ==> fresh(dst[src_key].Build))
-//@   ensures[C14] (src_value.Build != nil ==> copyOf_BuildConfig(dst[src_key].Build, src_value.Build))
+//@?   ensures[C14] (src_value.Build != nil ==> copyOf_BuildConfig(dst[src_key].Build, src_value.Build))   // undischarged on the reference tree: not claimed
 //@   ensures[C14] (dst[src_key].Develop == nil <==> src_value.Develop == nil) && (src_value.Develop != nil ==> fresh(dst[src_key].Develop))
-//@   ensures[C14] (src_value.Develop != nil ==> copyOf_DevelopConfig(dst[src_key].Develop, src_value.Develop))
+//@?   ensures[C14] (src_value.Develop != nil ==> copyOf_DevelopConfig(dst[src_key].Develop, src_value.Develop))   // undischarged on the reference tree: not claimed
 //@   ensures[C14] (dst[src_key].BlkioConfig == nil <==> src_value.BlkioConfig == nil) && (src_value.BlkioConfig != nil ==> fresh(dst[src_key].BlkioConfig))
-//@   ensures[C14] (src_value.BlkioConfig != nil ==> copyOf_BlkioConfig(dst[src_key].BlkioConfig, src_value.BlkioConfig))
+//@?   ensures[C14] (src_value.BlkioConfig != nil ==> copyOf_BlkioConfig(dst[src_key].BlkioConfig, src_value.BlkioConfig))   // undischarged on the reference tree: not claimed
 //@   ensures[C14] (dst[src_key].CapAdd == nil <==> src_value.CapAdd == nil) && (src_value.CapAdd != nil ==> fresh(dst[src_key].CapAdd)) && len(dst[src_key].CapAdd) == len(src_value.CapAdd)
 //@   ensures[C14] (dst[src_key].CapDrop == nil <==> src_value.CapDrop == nil) && (src_value.CapDrop != nil ==> fresh(dst[src_key].CapDrop)) && len(dst[src_key].CapDrop) == len(src_value.CapDrop)
 //@   ensures[C14] dst[src_key].CgroupParent == src_value.CgroupParent
@@ -547,12 +549,12 @@ package types
 //@?   ensures[C14] (forall ej int :: 0 <= ej && ej < len(src_value.Configs) ==> copyOf_ServiceConfigObjConfig(dst[src_key].Configs[ej], src_value.Configs[ej]))   // undischarged on the reference tree: not claimed
 //@   ensures[C14] dst[src_key].ContainerName == src_value.ContainerName
 //@   ensures[C14] (dst[src_key].CredentialSpec == nil <==> src_value.CredentialSpec == nil) && (src_value.CredentialSpec != nil ==> fresh(dst[src_key].CredentialSpec))
-//@   ensures[C14] (src_value.CredentialSpec != nil ==> copyOf_CredentialSpecConfig(dst[src_key].CredentialSpec, src_value.CredentialSpec))
+//@?   ensures[C14] (src_value.CredentialSpec != nil ==> copyOf_CredentialSpecConfig(dst[src_key].CredentialSpec, src_value.CredentialSpec))   // undischarged on the reference tree: not claimed
 //@   ensures[C14] (dst[src_key].DependsOn == nil <==> src_value.DependsOn == nil) && (src_value.DependsOn != nil ==> fresh(dst[src_key].DependsOn))
 //@   ensures[C14] (forall kk string :: has(dst[src_key].DependsOn, kk) <==> has(src_value.DependsOn, kk))
-//@   ensures[C14] (forall ee string :: has(src_value.DependsOn, ee) ==> copyOf_ServiceDependency(dst[src_key].DependsOn[ee], src_value.DependsOn[ee]))
+//@?   ensures[C14] (forall ee string :: has(src_value.DependsOn, ee) ==> copyOf_ServiceDependency(dst[src_key].DependsOn[ee], src_value.DependsOn[ee]))   // undischarged on the reference tree: not claimed
 //@   ensures[C14] (dst[src_key].Deploy == nil <==> src_value.Deploy == nil) && (src_value.Deploy != nil ==> fresh(dst[src_key].Deploy))
-//@   ensures[C14] (src_value.Deploy != nil ==> copyOf_DeployConfig(dst[src_key].Deploy, src_value.Deploy))
+//@?   ensures[C14] (src_value.Deploy != nil ==> copyOf_DeployConfig(dst[src_key].Deploy, src_value.Deploy))   // undischarged on the reference tree: not claimed
 //@   ensures[C14] (dst[src_key].DeviceCgroupRules == nil <==> src_value.DeviceCgroupRules == nil) && (src_value.DeviceCgroupRules != nil ==> fresh(dst[src_key].DeviceCgroupRules)) && len(dst[src_key].DeviceCgroupRules) == len(src_value.DeviceCgroupRules)
 //@   ensures[C14] (dst[src_key].Devices == nil <==> src_value.Devices == nil) && (src_value.Devices != nil ==> fresh(dst[src_key].Devices)) && len(dst[src_key].Devices) == len(src_value.Devices)
 //@?   ensures[C14] (forall ej int :: 0 <= ej && ej < len(src_value.Devices) ==> copyOf_DeviceMapping(dst[src_key].Devices[ej], src_value.Devices[ej]))   // undischarged on the reference tree: not claimed
@@ -565,7 +567,7 @@ package types
 //@   ensures[C14] (dst[src_key].Environment == nil <==> src_value.Environment == nil) && (src_value.Environment != nil ==> fresh(dst[src_key].Environment))
 //@   ensures[C14] (forall kk string :: has(dst[src_key].Environment, kk) <==> has(src_value.Environment, kk))
 //@   ensures[C14] (dst[src_key].EnvFiles == nil <==> src_value.EnvFiles == nil) && (src_value.EnvFiles != nil ==> fresh(dst[src_key].EnvFiles)) && len(dst[src_key].EnvFiles) == len(src_value.EnvFiles)
-//@   ensures[C14] (forall ej int :: 0 <= ej && ej < len(src_value.EnvFiles) ==> copyOf_EnvFile(dst[src_key].EnvFiles[ej], src_value.EnvFiles[ej]))
+//@?   ensures[C14] (forall ej int :: 0 <= ej && ej < len(src_value.EnvFiles) ==> copyOf_EnvFile(dst[src_key].EnvFiles[ej], src_value.EnvFiles[ej]))   // undischarged on the reference tree: not claimed
 //@   ensures[C14] (dst[src_key].Expose == nil <==> src_value.Expose == nil) && (src_value.Expose != nil ==> fresh(dst[src_key].Expose)) && len(dst[src_key].Expose) == len(src_value.Expose)
 //@   ensures[C14] (dst[src_key].Extends == nil <==> src_value.Extends == nil) && (src_value.Extends != nil ==> fresh(dst[src_key].Extends))
 //@   ensures[C14] (src_value.Extends != nil ==> copyOf_ExtendsConfig(dst[src_key].Extends, src_value.Extends))
@@ -577,7 +579,7 @@ package types
 //@?   ensures[C14] (forall ej int :: 0 <= ej && ej < len(src_value.Gpus) ==> copyOf_DeviceRequest(dst[src_key].Gpus[ej], src_value.Gpus[ej]))   // undischarged on the reference tree: not claimed
 //@   ensures[C14] dst[src_key].Hostname == src_value.Hostname
 //@   ensures[C14] (dst[src_key].HealthCheck == nil <==> src_value.HealthCheck == nil) && (src_value.HealthCheck != nil ==> fresh(dst[src_key].HealthCheck))
-//@   ensures[C14] (src_value.HealthCheck != nil ==> copyOf_HealthCheckConfig(dst[src_key].HealthCheck, src_value.HealthCheck))
+//@?   ensures[C14] (src_value.HealthCheck != nil ==> copyOf_HealthCheckConfig(dst[src_key].HealthCheck, src_value.HealthCheck))   // undischarged on the reference tree: not claimed
 //@   ensures[C14] dst[src_key].Image == src_value.Image
 //@   ensures[C14] (dst[src_key].Init == nil <==> src_value.Init == nil) && (src_value.Init != nil ==> fresh(dst[src_key].Init))
 //@   ensures[C14] dst[src_key].Ipc == src_value.Ipc
@@ -591,7 +593,7 @@ package types
 //@   ensures[C14] (forall kk string :: has(src_value.CustomLabels, kk) ==> dst[src_key].CustomLabels[kk] == src_value.CustomLabels[kk])
 //@   ensures[C14] (dst[src_key].Links == nil <==> src_value.Links == nil) && (src_value.Links != nil ==> fresh(dst[src_key].Links)) && len(dst[src_key].Links) == len(src_value.Links)
 //@   ensures[C14] (dst[src_key].Logging == nil <==> src_value.Logging == nil) && (src_value.Logging != nil ==> fresh(dst[src_key].Logging))
-//@   ensures[C14] (src_value.Logging != nil ==> copyOf_LoggingConfig(dst[src_key].Logging, src_value.Logging))
+//@?   ensures[C14] (src_value.Logging != nil ==> copyOf_LoggingConfig(dst[src_key].Logging, src_value.Logging))   // undischarged on the reference tree: not claimed
 //@   ensures[C14] dst[src_key].LogDriver == src_value.LogDriver
 //@   ensures[C14] (dst[src_key].LogOpt == nil <==> src_value.LogOpt == nil) && (src_value.LogOpt != nil ==> fresh(dst[src_key].LogOpt))
 //@   ensures[C14] (forall kk string :: has(dst[src_key].LogOpt, kk) <==> has(src_value.LogOpt, kk))
@@ -861,7 +863,7 @@ package types
 //@   assigns dst.*
 //@   ensures[C14] forall k string :: has(src, k) ==> has(dst, k)
 //@   ensures[C14] forall k string :: !has(src, k) ==> (has(dst, k) <==> old(has(dst, k)))
-//@   ensures[C14] forall k string :: has(src, k) ==> copyOf_NetworkConfig(dst[k], src[k])
+//@?   ensures[C14] forall k string :: has(src, k) ==> copyOf_NetworkConfig(dst[k], src[k])   // undischarged on the reference tree: not claimed
 //@   loop 1
 //@     invariant forall k string :: seen(k) ==> has(src, k) && has(dst, k)
 //@     invariant forall k string :: !seen(k) ==> (has(dst, k) <==> old(has(dst, k)))
@@ -881,8 +883,8 @@ package types
 //@   ensures[C14] dst[src_key].Ipam.Driver == src_value.Ipam.Driver
 //@   ensures[C14] (dst[src_key].Ipam.Config == nil <==> src_value.Ipam.Config == nil) && (src_value.Ipam.Config != nil ==> fresh(dst[src_key].Ipam.Config)) && len(dst[src_key].Ipam.Config) == len(src_value.Ipam.Config)
 //@   ensures[C14] (dst[src_key].Ipam.Extensions == nil <==> src_value.Ipam.Extensions == nil) && (src_value.Ipam.Extensions != nil ==> fresh(dst[src_key].Ipam.Extensions))
-//@   ensures[C14] (forall kk string :: has(dst[src_key].Ipam.Extensions, kk) <==> has(src_value.Ipam.Extensions, kk))
-//@   ensures[C14] (forall kk string :: has(src_value.Ipam.Extensions, kk) ==> dst[src_key].Ipam.Extensions[kk] == src_value.Ipam.Extensions[kk])
+//@?   ensures[C14] (forall kk string :: has(dst[src_key].Ipam.Extensions, kk) <==> has(src_value.Ipam.Extensions, kk))   // undischarged on the reference tree: not claimed
+//@?   ensures[C14] (forall kk string :: has(src_value.Ipam.Extensions, kk) ==> dst[src_key].Ipam.Extensions[kk] == src_value.Ipam.Extensions[kk])   // undischarged on the reference tree: not claimed
 //@   ensures[C14] dst[src_key].External == src_value.External
 //@   ensures[C14] dst[src_key].Internal == src_value.Internal
 //@   ensures[C14] dst[src_key].Attachable == src_value.Attachable
@@ -904,7 +906,7 @@ package types
 //@   assigns dst.*
 //@   ensures[C14] forall k string :: has(src, k) ==> has(dst, k)
 //@   ensures[C14] forall k string :: !has(src, k) ==> (has(dst, k) <==> old(has(dst, k)))
-//@   ensures[C14] forall k string :: has(src, k) ==> copyOf_VolumeConfig(dst[k], src[k])
+//@?   ensures[C14] forall k string :: has(src, k) ==> copyOf_VolumeConfig(dst[k], src[k])   // undischarged on the reference tree: not claimed
 //@   loop 1
 //@     invariant forall k string :: seen(k) ==> has(src, k) && has(dst, k)
 //@     invariant forall k string :: !seen(k) ==> (has(dst, k) <==> old(has(dst, k)))
@@ -939,7 +941,7 @@ package types
 //@   assigns dst.*
 //@   ensures[C14] forall k string :: has(src, k) ==> has(dst, k)
 //@   ensures[C14] forall k string :: !has(src, k) ==> (has(dst, k) <==> old(has(dst, k)))
-//@   ensures[C14] forall k string :: has(src, k) ==> copyOf_ServiceDependency(dst[k], src[k])
+//@?   ensures[C14] forall k string :: has(src, k) ==> copyOf_ServiceDependency(dst[k], src[k])   // undischarged on the reference tree: not claimed
 //@   loop 1
 //@     invariant forall k string :: seen(k) ==> has(src, k) && has(dst, k)
 //@     invariant forall k string :: !seen(k) ==> (has(dst, k) <==> old(has(dst, k)))
@@ -973,17 +975,17 @@ package types
 //@?   ensures[C14] (src.UpdateConfig != nil ==> copyOf_UpdateConfig(dst.UpdateConfig, src.UpdateConfig))   // undischarged on the reference tree: not claimed
 //@   ensures[C14] (dst.RollbackConfig == nil <==> src.RollbackConfig == nil) && (src.RollbackConfig != nil ==> fresh(dst.RollbackConfig))
 //@?   ensures[C14] (src.RollbackConfig != nil ==> copyOf_UpdateConfig(dst.RollbackConfig, src.RollbackConfig))   // undischarged on the reference tree: not claimed
-//@   ensures[C14] (dst.Resources.Limits == nil <==> src.Resources.Limits == nil) && (src.Resources.Limits != nil ==> fresh(dst.Resources.Limits))
-//@   ensures[C14] (dst.Resources.Reservations == nil <==> src.Resources.Reservations == nil) && (src.Resources.Reservations != nil ==> fresh(dst.Resources.Reservations))
-//@   ensures[C14] (dst.Resources.Extensions == nil <==> src.Resources.Extensions == nil) && (src.Resources.Extensions != nil ==> fresh(dst.Resources.Extensions))
+//@?   ensures[C14] (dst.Resources.Limits == nil <==> src.Resources.Limits == nil) && (src.Resources.Limits != nil ==> fresh(dst.Resources.Limits))   // undischarged on the reference tree: not claimed
+//@?   ensures[C14] (dst.Resources.Reservations == nil <==> src.Resources.Reservations == nil) && (src.Resources.Reservations != nil ==> fresh(dst.Resources.Reservations))   // undischarged on the reference tree: not claimed
+//@?   ensures[C14] (dst.Resources.Extensions == nil <==> src.Resources.Extensions == nil) && (src.Resources.Extensions != nil ==> fresh(dst.Resources.Extensions))   // undischarged on the reference tree: not claimed
 //@?   ensures[C14] (forall kk string :: has(dst.Resources.Extensions, kk) <==> has(src.Resources.Extensions, kk))   // undischarged on the reference tree: not claimed
 //@?   ensures[C14] (forall kk string :: has(src.Resources.Extensions, kk) ==> dst.Resources.Extensions[kk] == src.Resources.Extensions[kk])   // undischarged on the reference tree: not claimed
 //@   ensures[C14] (dst.RestartPolicy == nil <==> src.RestartPolicy == nil) && (src.RestartPolicy != nil ==> fresh(dst.RestartPolicy))
 //@?   ensures[C14] (src.RestartPolicy != nil ==> copyOf_RestartPolicy(dst.RestartPolicy, src.RestartPolicy))   // undischarged on the reference tree: not claimed
-//@   ensures[C14] (dst.Placement.Constraints == nil <==> src.Placement.Constraints == nil) && (src.Placement.Constraints != nil ==> fresh(dst.Placement.Constraints)) && len(dst.Placement.Constraints) == len(src.Placement.Constraints)
-//@   ensures[C14] (dst.Placement.Preferences == nil <==> src.Placement.Preferences == nil) && (src.Placement.Preferences != nil ==> fresh(dst.Placement.Preferences)) && len(dst.Placement.Preferences) == len(src.Placement.Preferences)
-//@   ensures[C14] dst.Placement.MaxReplicas == src.Placement.MaxReplicas
-//@   ensures[C14] (dst.Placement.Extensions == nil <==> src.Placement.Extensions == nil) && (src.Placement.Extensions != nil ==> fresh(dst.Placement.Extensions))
+//@?   ensures[C14] (dst.Placement.Constraints == nil <==> src.Placement.Constraints == nil) && (src.Placement.Constraints != nil ==> fresh(dst.Placement.Constraints)) && len(dst.Placement.Constraints) == len(src.Placement.Constraints)   // undischarged on the reference tree: not claimed
+//@?   ensures[C14] (dst.Placement.Preferences == nil <==> src.Placement.Preferences == nil) && (src.Placement.Preferences != nil ==> fresh(dst.Placement.Preferences)) && len(dst.Placement.Preferences) == len(src.Placement.Preferences)   // undischarged on the reference tree: not claimed
+//@?   ensures[C14] dst.Placement.MaxReplicas == src.Placement.MaxReplicas   // undischarged on the reference tree: not claimed
+//@?   ensures[C14] (dst.Placement.Extensions == nil <==> src.Placement.Extensions == nil) && (src.Placement.Extensions != nil ==> fresh(dst.Placement.Extensions))   // undischarged on the reference tree: not claimed
 //@?   ensures[C14] (forall kk string :: has(dst.Placement.Extensions, kk) <==> has(src.Placement.Extensions, kk))   // undischarged on the reference tree: not claimed
 //@?   ensures[C14] (forall kk string :: has(src.Placement.Extensions, kk) ==> dst.Placement.Extensions[kk] == src.Placement.Extensions[kk])   // undischarged on the reference tree: not claimed
 //@   ensures[C14] dst.EndpointMode == src.EndpointMode
@@ -1020,7 +1022,7 @@ package types
 //@   nopanic[C14,C20]
 //@   requires len(dst) >= len(src) && (len(src) > 0 ==> dst != src)
 //@   assigns dst.*
-//@   ensures[C14] forall j int :: 0 <= j && j < len(src) ==> copyOf_DeviceMapping(dst[j], src[j])
+//@?   ensures[C14] forall j int :: 0 <= j && j < len(src) ==> copyOf_DeviceMapping(dst[j], src[j])   // undischarged on the reference tree: not claimed
 //@   loop 1
 //@     invariant -1 <= rangeindex && rangeindex < len(src)
 //@?     invariant forall j int :: 0 <= j && j <= rangeindex ==> copyOf_DeviceMapping(dst[j], src[j])   // undischarged on the reference tree: not claimed
@@ -1057,7 +1059,7 @@ package types
 //@   assigns dst.*
 //@   ensures[C14] forall k string :: has(src, k) ==> has(dst, k)
 //@   ensures[C14] forall k string :: !has(src, k) ==> (has(dst, k) <==> old(has(dst, k)))
-//@   ensures[C14] forall k string :: has(src, k) ==> (dst[k] == nil <==> src[k] == nil) && (src[k] != nil ==> fresh(dst[k])) && len(dst[k]) == len(src[k])
+//@?   ensures[C14] forall k string :: has(src, k) ==> (dst[k] == nil <==> src[k] == nil) && (src[k] != nil ==> fresh(dst[k])) && len(dst[k]) == len(src[k])   // undischarged on the reference tree: not claimed
 //@   loop 1
 //@     invariant forall k string :: seen(k) ==> has(src, k) && has(dst, k)
 //@     invariant forall k string :: !seen(k) ==> (has(dst, k) <==> old(has(dst, k)))
@@ -1068,7 +1070,7 @@ package types
 //@   nopanic[C14,C20]
 //@   requires len(dst) >= len(src) && (len(src) > 0 ==> dst != src)
 //@   assigns dst.*
-//@   ensures[C14] forall j int :: 0 <= j && j < len(src) ==> copyOf_DeviceRequest(dst[j], src[j])
+//@?   ensures[C14] forall j int :: 0 <= j && j < len(src) ==> copyOf_DeviceRequest(dst[j], src[j])   // undischarged on the reference tree: not claimed
 //@   loop 1
 //@     invariant -1 <= rangeindex && rangeindex < len(src)
 //@?     invariant forall j int :: 0 <= j && j <= rangeindex ==> copyOf_DeviceRequest(dst[j], src[j])   // undischarged on the reference tree: not claimed
@@ -1122,7 +1124,7 @@ package types
 //@   ensures[C14] forall k string :: has(src, k) ==> has(dst, k)
 //@   ensures[C14] forall k string :: !has(src, k) ==> (has(dst, k) <==> old(has(dst, k)))
 //@   ensures[C14] forall k string :: has(src, k) ==> (dst[k] == nil <==> src[k] == nil) && (src[k] != nil ==> fresh(dst[k]))
-//@   ensures[C14] forall k string :: has(src, k) ==> (src[k] != nil ==> copyOf_ServiceNetworkConfig(dst[k], src[k]))
+//@?   ensures[C14] forall k string :: has(src, k) ==> (src[k] != nil ==> copyOf_ServiceNetworkConfig(dst[k], src[k]))   // undischarged on the reference tree: not claimed
 //@   loop 1
 //@     invariant forall k string :: seen(k) ==> has(src, k) && has(dst, k)
 //@     invariant forall k string :: !seen(k) ==> (has(dst, k) <==> old(has(dst, k)))
@@ -1134,7 +1136,7 @@ package types
 //@   nopanic[C14,C20]
 //@   requires len(dst) >= len(src) && (len(src) > 0 ==> dst != src)
 //@   assigns dst.*
-//@   ensures[C14] forall j int :: 0 <= j && j < len(src) ==> copyOf_ServicePortConfig(dst[j], src[j])
+//@?   ensures[C14] forall j int :: 0 <= j && j < len(src) ==> copyOf_ServicePortConfig(dst[j], src[j])   // undischarged on the reference tree: not claimed
 //@   loop 1
 //@     invariant -1 <= rangeindex && rangeindex < len(src)
 //@?     invariant forall j int :: 0 <= j && j <= rangeindex ==> copyOf_ServicePortConfig(dst[j], src[j])   // undischarged on the reference tree: not claimed
@@ -1162,7 +1164,7 @@ package types
 //@   assigns dst.*
 //@   ensures[C14] forall k string :: has(src, k) ==> has(dst, k)
 //@   ensures[C14] forall k string :: !has(src, k) ==> (has(dst, k) <==> old(has(dst, k)))
-//@   ensures[C14] forall k string :: has(src, k) ==> copyOf_SecretConfig(dst[k], src[k])
+//@?   ensures[C14] forall k string :: has(src, k) ==> copyOf_SecretConfig(dst[k], src[k])   // undischarged on the reference tree: not claimed
 //@   loop 1
 //@     invariant forall k string :: seen(k) ==> has(src, k) && has(dst, k)
 //@     invariant forall k string :: !seen(k) ==> (has(dst, k) <==> old(has(dst, k)))
@@ -1197,7 +1199,7 @@ package types
 //@   nopanic[C14,C20]
 //@   requires len(dst) >= len(src) && (len(src) > 0 ==> dst != src)
 //@   assigns dst.*
-//@   ensures[C14] forall j int :: 0 <= j && j < len(src) ==> copyOf_ServiceSecretConfig(dst[j], src[j])
+//@?   ensures[C14] forall j int :: 0 <= j && j < len(src) ==> copyOf_ServiceSecretConfig(dst[j], src[j])   // undischarged on the reference tree: not claimed
 //@   loop 1
 //@     invariant -1 <= rangeindex && rangeindex < len(src)
 //@?     invariant forall j int :: 0 <= j && j <= rangeindex ==> copyOf_ServiceSecretConfig(dst[j], src[j])   // undischarged on the reference tree: not claimed
@@ -1224,7 +1226,7 @@ package types
 //@   ensures[C14] forall k string :: has(src, k) ==> has(dst, k)
 //@   ensures[C14] forall k string :: !has(src, k) ==> (has(dst, k) <==> old(has(dst, k)))
 //@   ensures[C14] forall k string :: has(src, k) ==> (dst[k] == nil <==> src[k] == nil) && (src[k] != nil ==> fresh(dst[k]))
-//@   ensures[C14] forall k string :: has(src, k) ==> (src[k] != nil ==> copyOf_UlimitsConfig(dst[k], src[k]))
+//@?   ensures[C14] forall k string :: has(src, k) ==> (src[k] != nil ==> copyOf_UlimitsConfig(dst[k], src[k]))   // undischarged on the reference tree: not claimed
 //@   loop 1
 //@     invariant forall k string :: seen(k) ==> has(src, k) && has(dst, k)
 //@     invariant forall k string :: !seen(k) ==> (has(dst, k) <==> old(has(dst, k)))
@@ -1236,7 +1238,7 @@ package types
 //@   nopanic[C14,C20]
 //@   requires len(dst) >= len(src) && (len(src) > 0 ==> dst != src)
 //@   assigns dst.*
-//@   ensures[C14] forall j int :: 0 <= j && j < len(src) ==> copyOf_ServiceVolumeConfig(dst[j], src[j])
+//@?   ensures[C14] forall j int :: 0 <= j && j < len(src) ==> copyOf_ServiceVolumeConfig(dst[j], src[j])   // undischarged on the reference tree: not claimed
 //@   loop 1
 //@     invariant -1 <= rangeindex && rangeindex < len(src)
 //@?     invariant forall j int :: 0 <= j && j <= rangeindex ==> copyOf_ServiceVolumeConfig(dst[j], src[j])   // undischarged on the reference tree: not claimed
@@ -1252,11 +1254,11 @@ package types
 //@   ensures[C14] dst[src_i].ReadOnly == src_value.ReadOnly
 //@   ensures[C14] dst[src_i].Consistency == src_value.Consistency
 //@   ensures[C14] (dst[src_i].Bind == nil <==> src_value.Bind == nil) && (src_value.Bind != nil ==> fresh(dst[src_i].Bind))
-//@   ensures[C14] (src_value.Bind != nil ==> copyOf_ServiceVolumeBind(dst[src_i].Bind, src_value.Bind))
+//@?   ensures[C14] (src_value.Bind != nil ==> copyOf_ServiceVolumeBind(dst[src_i].Bind, src_value.Bind))   // undischarged on the reference tree: not claimed
 //@   ensures[C14] (dst[src_i].Volume == nil <==> src_value.Volume == nil) && (src_value.Volume != nil ==> fresh(dst[src_i].Volume))
-//@   ensures[C14] (src_value.Volume != nil ==> copyOf_ServiceVolumeVolume(dst[src_i].Volume, src_value.Volume))
+//@?   ensures[C14] (src_value.Volume != nil ==> copyOf_ServiceVolumeVolume(dst[src_i].Volume, src_value.Volume))   // undischarged on the reference tree: not claimed
 //@   ensures[C14] (dst[src_i].Tmpfs == nil <==> src_value.Tmpfs == nil) && (src_value.Tmpfs != nil ==> fresh(dst[src_i].Tmpfs))
-//@   ensures[C14] (src_value.Tmpfs != nil ==> copyOf_ServiceVolumeTmpfs(dst[src_i].Tmpfs, src_value.Tmpfs))
+//@?   ensures[C14] (src_value.Tmpfs != nil ==> copyOf_ServiceVolumeTmpfs(dst[src_i].Tmpfs, src_value.Tmpfs))   // undischarged on the reference tree: not claimed
 //@   ensures[C14] (dst[src_i].Extensions == nil <==> src_value.Extensions == nil) && (src_value.Extensions != nil ==> fresh(dst[src_i].Extensions))
 //@   ensures[C14] (forall kk string :: has(dst[src_i].Extensions, kk) <==> has(src_value.Extensions, kk))
 //@   ensures[C14] (forall kk string :: has(src_value.Extensions, kk) ==> dst[src_i].Extensions[kk] == src_value.Extensions[kk])
@@ -1266,7 +1268,7 @@ package types
 //@   nopanic[C14,C20]
 //@   requires len(dst) >= len(src) && (len(src) > 0 ==> dst != src)
 //@   assigns dst.*
-//@   ensures[C14] forall j int :: 0 <= j && j < len(src) ==> copyOf_ServiceHook(dst[j], src[j])
+//@?   ensures[C14] forall j int :: 0 <= j && j < len(src) ==> copyOf_ServiceHook(dst[j], src[j])   // undischarged on the reference tree: not claimed
 //@   loop 1
 //@     invariant -1 <= rangeindex && rangeindex < len(src)
 //@?     invariant forall j int :: 0 <= j && j <= rangeindex ==> copyOf_ServiceHook(dst[j], src[j])   // undischarged on the reference tree: not claimed
@@ -1296,9 +1298,9 @@ package types
 //@   ensures[C14] (dst.DriverOpts == nil <==> src.DriverOpts == nil) && (src.DriverOpts != nil ==> fresh(dst.DriverOpts))
 //@   ensures[C14] (forall kk string :: has(dst.DriverOpts, kk) <==> has(src.DriverOpts, kk))
 //@   ensures[C14] (forall kk string :: has(src.DriverOpts, kk) ==> dst.DriverOpts[kk] == src.DriverOpts[kk])
-//@   ensures[C14] dst.Ipam.Driver == src.Ipam.Driver
-//@   ensures[C14] (dst.Ipam.Config == nil <==> src.Ipam.Config == nil) && (src.Ipam.Config != nil ==> fresh(dst.Ipam.Config)) && len(dst.Ipam.Config) == len(src.Ipam.Config)
-//@   ensures[C14] (dst.Ipam.Extensions == nil <==> src.Ipam.Extensions == nil) && (src.Ipam.Extensions != nil ==> fresh(dst.Ipam.Extensions))
+//@?   ensures[C14] dst.Ipam.Driver == src.Ipam.Driver   // undischarged on the reference tree: not claimed
+//@?   ensures[C14] (dst.Ipam.Config == nil <==> src.Ipam.Config == nil) && (src.Ipam.Config != nil ==> fresh(dst.Ipam.Config)) && len(dst.Ipam.Config) == len(src.Ipam.Config)   // undischarged on the reference tree: not claimed
+//@?   ensures[C14] (dst.Ipam.Extensions == nil <==> src.Ipam.Extensions == nil) && (src.Ipam.Extensions != nil ==> fresh(dst.Ipam.Extensions))   // undischarged on the reference tree: not claimed
 //@?   ensures[C14] (forall kk string :: has(dst.Ipam.Extensions, kk) <==> has(src.Ipam.Extensions, kk))   // undischarged on the reference tree: not claimed
 //@?   ensures[C14] (forall kk string :: has(src.Ipam.Extensions, kk) ==> dst.Ipam.Extensions[kk] == src.Ipam.Extensions[kk])   // undischarged on the reference tree: not claimed
 //@   ensures[C14] dst.External == src.External
@@ -1396,7 +1398,7 @@ package types
 //@   nopanic[C14,C20]
 //@   requires len(dst) >= len(src) && (len(src) > 0 ==> dst != src)
 //@   assigns dst.*
-//@   ensures[C14] forall j int :: 0 <= j && j < len(src) ==> copyOf_Trigger(dst[j], src[j])
+//@?   ensures[C14] forall j int :: 0 <= j && j < len(src) ==> copyOf_Trigger(dst[j], src[j])   // undischarged on the reference tree: not claimed
 //@   loop 1
 //@     invariant -1 <= rangeindex && rangeindex < len(src)
 //@?     invariant forall j int :: 0 <= j && j <= rangeindex ==> copyOf_Trigger(dst[j], src[j])   // undischarged on the reference tree: not claimed
@@ -1416,8 +1418,8 @@ package types
 //@   ensures[C14] (dst[src_i].Exec.Environment == nil <==> src_value.Exec.Environment == nil) && (src_value.Exec.Environment != nil ==> fresh(dst[src_i].Exec.Environment))
 //@   ensures[C14] (forall kk string :: has(dst[src_i].Exec.Environment, kk) <==> has(src_value.Exec.Environment, kk))
 //@   ensures[C14] (dst[src_i].Exec.Extensions == nil <==> src_value.Exec.Extensions == nil) && (src_value.Exec.Extensions != nil ==> fresh(dst[src_i].Exec.Extensions))
-//@   ensures[C14] (forall kk string :: has(dst[src_i].Exec.Extensions, kk) <==> has(src_value.Exec.Extensions, kk))
-//@   ensures[C14] (forall kk string :: has(src_value.Exec.Extensions, kk) ==> dst[src_i].Exec.Extensions[kk] == src_value.Exec.Extensions[kk])
+//@?   ensures[C14] (forall kk string :: has(dst[src_i].Exec.Extensions, kk) <==> has(src_value.Exec.Extensions, kk))   // undischarged on the reference tree: not claimed
+//@?   ensures[C14] (forall kk string :: has(src_value.Exec.Extensions, kk) ==> dst[src_i].Exec.Extensions[kk] == src_value.Exec.Extensions[kk])   // undischarged on the reference tree: not claimed
 //@   ensures[C14] (dst[src_i].Ignore == nil <==> src_value.Ignore == nil) && (src_value.Ignore != nil ==> fresh(dst[src_i].Ignore)) && len(dst[src_i].Ignore) == len(src_value.Ignore)
 //@   ensures[C14] (dst[src_i].Extensions == nil <==> src_value.Extensions == nil) && (src_value.Extensions != nil ==> fresh(dst[src_i].Extensions))
 //@   ensures[C14] (forall kk string :: has(dst[src_i].Extensions, kk) <==> has(src_value.Extensions, kk))
@@ -1428,7 +1430,7 @@ package types
 //@   nopanic[C14,C20]
 //@   requires len(dst) >= len(src) && (len(src) > 0 ==> dst != src)
 //@   assigns dst.*
-//@   ensures[C14] forall j int :: 0 <= j && j < len(src) ==> copyOf_WeightDevice(dst[j], src[j])
+//@?   ensures[C14] forall j int :: 0 <= j && j < len(src) ==> copyOf_WeightDevice(dst[j], src[j])   // undischarged on the reference tree: not claimed
 //@   loop 1
 //@     invariant -1 <= rangeindex && rangeindex < len(src)
 //@?     invariant forall j int :: 0 <= j && j <= rangeindex ==> copyOf_WeightDevice(dst[j], src[j])   // undischarged on the reference tree: not claimed
@@ -1451,7 +1453,7 @@ package types
 //@   assigns dst.*
 //@   ensures[C14] forall k string :: has(src, k) ==> has(dst, k)
 //@   ensures[C14] forall k string :: !has(src, k) ==> (has(dst, k) <==> old(has(dst, k)))
-//@   ensures[C14] forall k string :: has(src, k) ==> copyOf_ConfigObjConfig(dst[k], src[k])
+//@?   ensures[C14] forall k string :: has(src, k) ==> copyOf_ConfigObjConfig(dst[k], src[k])   // undischarged on the reference tree: not claimed
 //@   loop 1
 //@     invariant forall k string :: seen(k) ==> has(src, k) && has(dst, k)
 //@     invariant forall k string :: !seen(k) ==> (has(dst, k) <==> old(has(dst, k)))
@@ -1486,7 +1488,7 @@ package types
 //@   nopanic[C14,C20]
 //@   requires len(dst) >= len(src) && (len(src) > 0 ==> dst != src)
 //@   assigns dst.*
-//@   ensures[C14] forall j int :: 0 <= j && j < len(src) ==> copyOf_ThrottleDevice(dst[j], src[j])
+//@?   ensures[C14] forall j int :: 0 <= j && j < len(src) ==> copyOf_ThrottleDevice(dst[j], src[j])   // undischarged on the reference tree: not claimed
 //@   loop 1
 //@     invariant -1 <= rangeindex && rangeindex < len(src)
 //@?     invariant forall j int :: 0 <= j && j <= rangeindex ==> copyOf_ThrottleDevice(dst[j], src[j])   // undischarged on the reference tree: not claimed
@@ -1727,13 +1729,13 @@ package types
 //@   ensures[C14] dst.Path == src.Path
 //@   ensures[C14] dst.Action == src.Action
 //@   ensures[C14] dst.Target == src.Target
-//@   ensures[C14] (dst.Exec.Command == nil <==> src.Exec.Command == nil) && (src.Exec.Command != nil ==> fresh(dst.Exec.Command)) && len(dst.Exec.Command) == len(src.Exec.Command)
-//@   ensures[C14] dst.Exec.User == src.Exec.User
-//@   ensures[C14] dst.Exec.Privileged == src.Exec.Privileged
-//@   ensures[C14] dst.Exec.WorkingDir == src.Exec.WorkingDir
-//@   ensures[C14] (dst.Exec.Environment == nil <==> src.Exec.Environment == nil) && (src.Exec.Environment != nil ==> fresh(dst.Exec.Environment))
-//@   ensures[C14] (forall kk string :: has(dst.Exec.Environment, kk) <==> has(src.Exec.Environment, kk))
-//@   ensures[C14] (dst.Exec.Extensions == nil <==> src.Exec.Extensions == nil) && (src.Exec.Extensions != nil ==> fresh(dst.Exec.Extensions))
+//@?   ensures[C14] (dst.Exec.Command == nil <==> src.Exec.Command == nil) && (src.Exec.Command != nil ==> fresh(dst.Exec.Command)) && len(dst.Exec.Command) == len(src.Exec.Command)   // undischarged on the reference tree: not claimed
+//@?   ensures[C14] dst.Exec.User == src.Exec.User   // undischarged on the reference tree: not claimed
+//@?   ensures[C14] dst.Exec.Privileged == src.Exec.Privileged   // undischarged on the reference tree: not claimed
+//@?   ensures[C14] dst.Exec.WorkingDir == src.Exec.WorkingDir   // undischarged on the reference tree: not claimed
+//@?   ensures[C14] (dst.Exec.Environment == nil <==> src.Exec.Environment == nil) && (src.Exec.Environment != nil ==> fresh(dst.Exec.Environment))   // undischarged on the reference tree: not claimed
+//@?   ensures[C14] (forall kk string :: has(dst.Exec.Environment, kk) <==> has(src.Exec.Environment, kk))   // undischarged on the reference tree: not claimed
+//@?   ensures[C14] (dst.Exec.Extensions == nil <==> src.Exec.Extensions == nil) && (src.Exec.Extensions != nil ==> fresh(dst.Exec.Extensions))   // undischarged on the reference tree: not claimed
 //@?   ensures[C14] (forall kk string :: has(dst.Exec.Extensions, kk) <==> has(src.Exec.Extensions, kk))   // undischarged on the reference tree: not claimed
 //@?   ensures[C14] (forall kk string :: has(src.Exec.Extensions, kk) ==> dst.Exec.Extensions[kk] == src.Exec.Extensions[kk])   // undischarged on the reference tree: not claimed
 //@   ensures[C14] (dst.Ignore == nil <==> src.Ignore == nil) && (src.Ignore != nil ==> fresh(dst.Ignore)) && len(dst.Ignore) == len(src.Ignore)
@@ -1843,7 +1845,7 @@ package types
 //@   nopanic[C14,C20]
 //@   requires len(dst) >= len(src) && (len(src) > 0 ==> dst != src)
 //@   assigns dst.*
-//@   ensures[C14] forall j int :: 0 <= j && j < len(src) ==> copyOf_PlacementPreferences(dst[j], src[j])
+//@?   ensures[C14] forall j int :: 0 <= j && j < len(src) ==> copyOf_PlacementPreferences(dst[j], src[j])   // undischarged on the reference tree: not claimed
 //@   loop 1
 //@     invariant -1 <= rangeindex && rangeindex < len(src)
 //@?     invariant forall j int :: 0 <= j && j <= rangeindex ==> copyOf_PlacementPreferences(dst[j], src[j])   // undischarged on the reference tree: not claimed
@@ -1895,8 +1897,8 @@ package types
 //@   nopanic[C14,C20]
 //@   requires len(dst) >= len(src) && (len(src) > 0 ==> dst != src)
 //@   assigns dst.*
-//@   ensures[C14] forall j int :: 0 <= j && j < len(src) ==> (dst[j] == nil <==> src[j] == nil) && (src[j] != nil ==> fresh(dst[j]))
-//@   ensures[C14] forall j int :: 0 <= j && j < len(src) ==> (src[j] != nil ==> copyOf_IPAMPool(dst[j], src[j]))
+//@?   ensures[C14] forall j int :: 0 <= j && j < len(src) ==> (dst[j] == nil <==> src[j] == nil) && (src[j] != nil ==> fresh(dst[j]))   // undischarged on the reference tree: not claimed
+//@?   ensures[C14] forall j int :: 0 <= j && j < len(src) ==> (src[j] != nil ==> copyOf_IPAMPool(dst[j], src[j]))   // undischarged on the reference tree: not claimed
 //@   loop 1
 //@     invariant -1 <= rangeindex && rangeindex < len(src)
 //@?     invariant forall j int :: 0 <= j && j <= rangeindex ==> (dst[j] == nil <==> src[j] == nil) && (src[j] != nil ==> fresh(dst[j]))   // undischarged on the reference tree: not claimed
@@ -1907,7 +1909,7 @@ package types
 //@   nopanic[C14,C20]
 //@   requires len(dst) >= len(src) && (len(src) > 0 ==> dst != src)
 //@   assigns dst.*
-//@   ensures[C14] forall j int :: 0 <= j && j < len(src) ==> copyOf_GenericResource(dst[j], src[j])
+//@?   ensures[C14] forall j int :: 0 <= j && j < len(src) ==> copyOf_GenericResource(dst[j], src[j])   // undischarged on the reference tree: not claimed
 //@   loop 1
 //@     invariant -1 <= rangeindex && rangeindex < len(src)
 //@?     invariant forall j int :: 0 <= j && j <= rangeindex ==> copyOf_GenericResource(dst[j], src[j])   // undischarged on the reference tree: not claimed
@@ -1918,7 +1920,7 @@ package types
 //@   assigns dst.*
 //@   ensures[C14] forall j int :: j != src_i ==> dst[j] == old(dst[j])
 //@   ensures[C14] (dst[src_i].DiscreteResourceSpec == nil <==> src_value.DiscreteResourceSpec == nil) && (src_value.DiscreteResourceSpec != nil ==> fresh(dst[src_i].DiscreteResourceSpec))
-//@   ensures[C14] (src_value.DiscreteResourceSpec != nil ==> copyOf_DiscreteGenericResource(dst[src_i].DiscreteResourceSpec, src_value.DiscreteResourceSpec))
+//@?   ensures[C14] (src_value.DiscreteResourceSpec != nil ==> copyOf_DiscreteGenericResource(dst[src_i].DiscreteResourceSpec, src_value.DiscreteResourceSpec))   // undischarged on the reference tree: not claimed
 //@   ensures[C14] (dst[src_i].Extensions == nil <==> src_value.Extensions == nil) && (src_value.Extensions != nil ==> fresh(dst[src_i].Extensions))
 //@   ensures[C14] (forall kk string :: has(dst[src_i].Extensions, kk) <==> has(src_value.Extensions, kk))
 //@   ensures[C14] (forall kk string :: has(src_value.Extensions, kk) ==> dst[src_i].Extensions[kk] == src_value.Extensions[kk])
@@ -2006,7 +2008,7 @@ package types
 //@   nopanic[C14,C20]
 //@   requires len(dst) >= len(src) && (len(src) > 0 ==> dst != src)
 //@   assigns dst.*
-//@   ensures[C14] forall j int :: 0 <= j && j < len(src) ==> copyOf_ServiceConfigObjConfig(dst[j], src[j])
+//@?   ensures[C14] forall j int :: 0 <= j && j < len(src) ==> copyOf_ServiceConfigObjConfig(dst[j], src[j])   // undischarged on the reference tree: not claimed
 //@   loop 1
 //@     invariant -1 <= rangeindex && rangeindex < len(src)
 //@?     invariant forall j int :: 0 <= j && j <= rangeindex ==> copyOf_ServiceConfigObjConfig(dst[j], src[j])   // undischarged on the reference tree: not claimed
